@@ -195,6 +195,12 @@ def _aslist(x):
     return list(x)
 
 
+def _edit_dict(d, key, idx, val):
+    """A caller edits its own dict (which it handed to CreateDerived earlier) before re-using it."""
+    d[key][idx] = val
+    return None
+
+
 class _Py:
     FUNCS = {
         "add": operator.add,
@@ -224,6 +230,7 @@ class _Py:
         "getattr": _getattr,
         "change_scalars": _change_scalars,
         "identity": lambda x: x,
+        "edit_dict": _edit_dict,
     }
 
     def __getattr__(self, name):
